@@ -123,16 +123,28 @@ static void destroy(TickitPen *pen)
   free(pen);
 }
 
+/* A handler may drop the last reference to the pen: hold one across every
+ * emission (and across a freeze..thaw region, which emits at its end), so the
+ * pen is destroyed only once nothing is walking its bindings any more.
+ */
+static void emit_change(TickitPen *pen)
+{
+  tickit_pen_ref(pen);
+  run_events(pen, TICKIT_PEN_ON_CHANGE, NULL);
+  tickit_pen_unref(pen);
+}
+
 static void changed(TickitPen *pen)
 {
   if(!pen->freezecount)
-    run_events(pen, TICKIT_PEN_ON_CHANGE, NULL);
+    emit_change(pen);
   else
     pen->changed = true;
 }
 
 static void freeze(TickitPen *pen)
 {
+  tickit_pen_ref(pen);
   pen->freezecount++;
 }
 
@@ -140,9 +152,10 @@ static void thaw(TickitPen *pen)
 {
   pen->freezecount--;
   if(!pen->freezecount && pen->changed) {
-    run_events(pen, TICKIT_PEN_ON_CHANGE, NULL);
     pen->changed = false;
+    run_events(pen, TICKIT_PEN_ON_CHANGE, NULL);
   }
+  tickit_pen_unref(pen);
 }
 
 TickitPen *tickit_pen_ref(TickitPen *pen)
@@ -317,7 +330,7 @@ void tickit_pen_set_colour_attr(TickitPen *pen, TickitPenAttr attr, int val)
     default:
       return;
   }
-  run_events(pen, TICKIT_PEN_ON_CHANGE, NULL);
+  emit_change(pen);
 }
 
 bool tickit_pen_has_colour_attr_rgb8(const TickitPen *pen, TickitPenAttr attr)
